@@ -911,6 +911,12 @@ func (g *FuncGen) execFor(x *ast.ForStmt, st *State) Flow {
 	}
 	if ls == nil || ls.Decreases == nil {
 		g.notes = append(g.notes, fmt.Sprintf("termination of loop %d in %s not proved (no decreases clause)", ord, g.F.Key))
+		// a function whose contract claims termination (a function-level decreases clause) has a measure for every
+		// for-loop it contains; a loop added without one is an open termination obligation
+		if len(g.inlineStack) == 0 && g.F.Spec != nil && g.F.Spec.Decr != nil {
+			g.oblige(st, fmt.Sprintf("dec/loop%d", ord), "no-measure", g.F.Spec.Decr.Tags, "false", x.Pos(),
+				"the function's contract claims termination, this loop has no decreases clause")
+		}
 	}
 	return Flow{next: g.merge(append([]*State{exitSt}, fl.brk...))}
 }
